@@ -884,6 +884,7 @@ def exhaustive_pairs(single):
                 u = X.Upload(srv, "pair-%d-u" % n, ("pair_up_%d.bin" % n).encode(), 3, 5, opts=[("blksize", 8)],
                              target=os.path.join(sb.recv, "pair_up_%d.bin" % n))
                 for c in ((d, u) if first == "d" else (u, d)):
+                    c.quiet = 0.08
                     c.start()
                 for who in sched:
                     c = d if who == "d" else u
